@@ -179,6 +179,14 @@ def drip_schedules():
     out.append({"id": "arrive1", "steps": [["offer", 1], ["release", 1], ["cancel", 0], ["offer", 2], ["release", 2], ["offer", 3], ["release", 3], ["offer", 4], ["release", 4]], "refuse": []})
     out.append({"id": "arrive2", "steps": [["cancel", 0], ["offer", 1], ["offer", 2], ["offer", 3], ["release", 1], ["release", 2], ["release", 3]], "refuse": []})
     out.append({"id": "arrive3", "steps": [["offer", 1], ["release", 1], ["packetc", 1], ["cancel", 0], ["offer", 2], ["offer", 3], ["hrel", 1], ["offer", 4], ["offer", 5]], "refuse": []})
+    # the server in proxy mode (a PROXY line before every packet, as the code expects it): silent peers, unterminated lines,
+    # exchanges left half-way, cancellation - the deadline and shutdown clauses do not depend on the option
+    P = lambda i, steps: out.append({"id": "proxy%d" % i, "steps": steps, "refuse": [], "proxy": True})
+    P(1, [["offer", 1], ["release", 1], ["tick", 16], ["tick", 16]])
+    P(2, [["offer", 1], ["release", 1], ["partial", 1], ["tick", 14], ["partial", 1], ["tick", 14]])
+    P(3, [["offer", 1], ["release", 1], ["packet", 1], ["hrel", 1], ["tick", 20], ["offer", 2], ["release", 2], ["cancel", 0]])
+    P(4, [["offer", 1], ["release", 1], ["packetc", 1], ["hrel", 1], ["packetc", 1], ["hrel", 1], ["cancel", 0]])
+    P(5, [["offer", 1], ["offer", 2], ["release", 1], ["release", 2], ["cancel", 0], ["tick", 16]])
     out.append({"id": "refused1", "steps": [["offer", 1], ["release", 1], ["offer", 2], ["release", 2], ["packet", 2], ["hrel", 2], ["offer", 3], ["release", 3]], "refuse": [1, 3]})
     return out
 
